@@ -180,6 +180,11 @@ func zzRunSession(upload bool, event, maxAt int, timeout int) (*zzSess, *zzSessR
 	}
 	s.V = newTransfer(&zzSessToClient{s}, nil, false, nil)
 	s.V.transferConfig.Timeout = timeout
+	if b := verifBound("BUF"); b > 0 {
+		// scaled-down buffer-size probing: the sending server starts with a b-byte chunk buffer instead of 10 KiB, so
+		// that files of a few bytes span several stop-and-wait probing chunks
+		s.V.bufferSize.Store(int64(b))
+	}
 	s.f = &TrzszFilter{clientOut: s.term, serverIn: &zzSessToServer{s}, serverOut: &zzSessReader{s}}
 	s.f.options.TerminalColumns = 80
 	go s.f.wrapOutput()
@@ -351,10 +356,16 @@ func zzH_C02_session() {
 // never a hang, never success for a wrong file
 func zzH_C18_session() {
 	upload := verifNondetBool()
-	zzPauseTicks = verifNondetRange(0, 1)
-	timeout := 1
-	if zzPauseTicks == 0 {
-		timeout = 0 // a pause shorter than the timeout: in discrete time, no time-out at all elapses
+	// three kinds of pause: (a) no time passes at all, (b) ten seconds pass with time-outs disabled (-t 0) — both are
+	// "shorter than the timeout" —, (c) ten seconds pass with a one-second timeout
+	kind := verifNondetRange(0, 2)
+	timeout := 0
+	zzPauseTicks = 0
+	if kind >= 1 {
+		zzPauseTicks = 1
+	}
+	if kind == 2 {
+		timeout = 1
 	}
 	s, res := zzRunSession(upload, zzEvPauseClient, verifBound("MSGS"), timeout)
 	if !res.serverDone || !res.clientClear {
@@ -362,7 +373,7 @@ func zzH_C18_session() {
 	}
 	verifAssert(res.serverDone, "the server side hangs after a pause/resume")
 	verifAssert(res.clientClear, "the client side hangs after a pause/resume")
-	if s.paused == nil || s.pauseTicks == 0 {
+	if s.paused == nil || kind != 2 {
 		verifAssert(res.serverErr == nil, "transfer failed although the pause was shorter than the timeout")
 		verifAssert(zzSessFileIntact(res), "file differs after a short pause")
 		verifReach("short-pause-ok")
